@@ -7,12 +7,12 @@ from .. import impl
 from ..diff import compile_cached, show_answers
 from ..refprolog import Ref, Budget
 from ..runner import Acc
-from ..terms import A, C, F, V, L, NIL, call, conj, TRUE, show_program, show_term, term_vars
+from ..terms import A, C, F, V, L, NIL, call, conj, TRUE, show_program, show_term, pp, term_vars
 from .c03 import snapshot, leftover
 
 ID = 'C17'
 LEVEL = 'fault_enumeration'
-RULE = ('queries {a findall over 300 facts (the builtin holds the query while the answer is delivered); finite flat facts; a fact whose second argument is a 60-element list (the limit strikes inside the element-by-element match, after the first argument was bound) - compiled and as a dynamic fact, against ground lists and lists of variables; len/2 on lists of length 5, 20, 60; app/3 splitting a list; nat/1 and even/odd '
+RULE = ('queries {answers found at different depths, the deep ones behind a comparison of constants whose equality is decided by Python code (a Fraction); a findall over 300 facts (the builtin holds the query while the answer is delivered); finite flat facts; a fact whose second argument is a 60-element list (the limit strikes inside the element-by-element match, after the first argument was bound) - compiled and as a dynamic fact, against ground lists and lists of variables; len/2 on lists of length 5, 20, 60; app/3 splitting a list; nat/1 and even/odd '
         '(infinitely many answers, each deeper); left recursion lp(X) :- lp(X). lp(a). (diverges before any answer); a '
         'rule with a deep failing branch between answers; registered Python predicates whose clean-up (finally) code needs 0, 3, 12 or 30 nested calls, queried directly and through call/1; predicates answered from two sources (dynamic facts followed by compiled clauses, dynamic facts followed by a Python predicate); a Python predicate that yields True; a dynamic fact with a variable 12 levels deep (after every call two uses of it at once must still be independent)} x EVERY recursion_limit from 8 to 400 (each value moves the '
         'point at which the limit strikes; quick: every value up to 89, then every 14th) x projection functions {identity, observe the variables, '
@@ -49,6 +49,9 @@ PROGRAM = [
     # a use of the fact vfact(s^12(_)) twice at once, with different bindings (run AFTER a bounded call,
     # as a probe that the engine is what it was)
     (A('vboth'), conj(call(F('vfact', V('Pa'))), call(F('vfact', V('Pb'))), call(F('=', V('Pa'), DEEP(A('a')))), call(F('=', V('Pb'), DEEP(A('b')))))),
+    # answers found at DIFFERENT depths, the deep ones behind a comparison of Python-compared constants
+    (F('pc', V('Kc'), A('first')), call(F('chk', V('Kc')))), (F('pc', ANON, A('second')), None), (F('pc', V('Kc'), A('third')), call(F('chk', V('Kc')))),
+    (F('pc', ANON, A('fourth')), None), (F('chk', V('Kc')), call(F('chk1', V('Kc')))), (F('chk1', V('Kc')), call(F('wconst', V('Kc')))),
     # a findall whose bag has 300 elements (a builtin that itself holds the query while the answer is delivered)
     (F('all300', V('Lb')), call(F('findall', X, F('n300', X), V('Lb')))),
 ] + [(F('n300', C(i)), None) for i in range(300)] + [
@@ -59,7 +62,11 @@ PROGRAM = [
 PY_DEPTHS = [0, 3, 12, 30]
 
 
-DYN_FACTS = [F('bigd', A('first'), L([C(i) for i in range(60)])), F('bigd', A('second'), L([C(i) for i in range(45)] + [A('x')])),
+# a constant whose equality is decided by PYTHON code (the comparison itself needs stack)
+from fractions import Fraction  # noqa: E402
+HALF = C(Fraction(1, 2))
+DYN_FACTS = [F('wconst', HALF),
+             F('bigd', A('first'), L([C(i) for i in range(60)])), F('bigd', A('second'), L([C(i) for i in range(45)] + [A('x')])),
              F('mixd', A('d1')), F('mixd', A('d2')), F('pyg3', C(0)), F('vfact', DEEP(V('Fv')))]
 
 
@@ -111,7 +118,7 @@ def queries():
         [('big-dynamic', F('bigd', V('Q'), lst(60))), ('big-variables', F('big', V('Q'), L([V('E%d' % i) for i in range(60)]))),
          ('big-dynamic-variables', F('bigd', V('Q'), L([V('E%d' % i) for i in range(45)], V('Et')))),
          ('big', F('big', V('Q'), lst(60))), ('big-tail', F('big', V('Q'), L([C(i) for i in range(30)], V('Q2')))), ('same', F('eqq', lst(60), lst(60)))] + \
-        [('findall-300', F('all300', V('Q'))), ('mixed-sources', F('mixd', V('Q'))), ('python-yielding-true', F('pyt3', V('Q'))), ('variable-fact', F('vfact', V('Q')))] + [('pyg%d' % d, F('pyg%d' % d, V('Q'))) for d in PY_DEPTHS] + [('call-pyg12', F('call', F('pyg12', V('Q'))))]
+        [('python-compared-constant-deep', F('pc', HALF, V('Q'))), ('findall-300', F('all300', V('Q'))), ('mixed-sources', F('mixd', V('Q'))), ('python-yielding-true', F('pyt3', V('Q'))), ('variable-fact', F('vfact', V('Q')))] + [('pyg%d' % d, F('pyg%d' % d, V('Q'))) for d in PY_DEPTHS] + [('call-pyg12', F('call', F('pyg12', V('Q'))))]
 
 
 def bounds(tier):
@@ -398,7 +405,7 @@ def _shard(spec, acc):
                     sys.setrecursionlimit(1000)
                 if bad:
                     acc.violation(bad[0], (limit, qn, pn), {'query': qn, 'limit': limit, 'projection': pn, 'bystander': idx % 5 == 0, 'ambient': AMBIENT.get(idx % 7)},
-                                  'query %s, recursion_limit=%d, projection %s\n%s' % (show_term(goal), limit, pn, bad[1]),
+                                  'query %s, recursion_limit=%d, projection %s\n%s' % (pp(goal), limit, pn, bad[1]),
                                   key='%s|%d|%s' % (qn, limit, pn))
                     continue
                 acc.n['transitions'] += max(info[0], 0) + 1
@@ -406,7 +413,7 @@ def _shard(spec, acc):
                     acc.n['nontrivial'] += 1
                 acc.outcome((qn, info))
                 if info[1] == 'cut' and limit == 40 + 7 * 20 and pn == 'value':
-                    acc.sample({'query': show_term(goal), 'recursion_limit': limit, 'projection': pn, 'answers_returned': info[0]}, limit=2)
+                    acc.sample({'query': pp(goal), 'recursion_limit': limit, 'projection': pn, 'answers_returned': info[0]}, limit=2)
 
 
 # ---- bounds ABOVE the interpreter's own limit ---------------------------------------------------
